@@ -1,6 +1,8 @@
 import MmtkModel.Model.WeakMon
 import MmtkModel.Model.SATB
+import MmtkModel.Model.IntPtr
 import Driver.GCMon.Monitor
+import Std.Data.HashSet
 /-!
 # `gcw`: the snapshot monitor `gcm` extended with the remembered-set model (C05), the reference /
 # finalizable processor models (C06) and the SATB survivor rule (C12)
@@ -53,6 +55,9 @@ structure St where
   voExact : Bool := true
   /-- ids of the last snapshot taken since the last pause (their `lastRef` is current) -/
   inSnap : Array Bool := #[]
+  /-- C08: SFT index (address >> 41) → space name, from `spaces`; 4 MB chunk number → mapped, from `ismapped` -/
+  spaceTab : List (Nat × String) := []
+  mappedTab : List (Nat × Bool) := []
 
 def sortNat (l : List Nat) : List Nat := l.mergeSort (fun a b => decide (a ≤ b))
 
@@ -111,6 +116,34 @@ def parseEnum (s : String) : Option (List (Nat × Nat)) :=
     | [i, r] => match i.toNat?, parseHex? r with
       | some i, some r => some (i, r)
       | _, _ => none
+    | _ => none
+
+/-- C08: what `SFT_MAP.get_checked(addr)` is for this address (Map64: one SFT per 2^41-byte slot) -/
+def spaceKind (st : St) (a : Nat) : Mmtk.IntPtr.Space :=
+  match st.spaceTab.lookup (a >>> 41) with
+  | none => .empty
+  | some name =>
+    let nm := stripDigits name
+    if nm == "los" || nm == "pageprotect" then .los                            -- LargeObjectSpace
+    else if nm == "immix" || nm == "nonmoving" || nm == "immix_mature" then .generic (some 16384)      -- MAX_IMMIX_OBJECT_SIZE = Block::BYTES / 2
+    else if nm == "ms" then .generic (some 65536)                             -- native_ms MAX_OBJECT_SIZE = MI_LARGE_OBJ_SIZE_MAX
+    else .generic none
+
+/-- the monitor's view of memory as an `Mmtk.IntPtr.Env`: VO bits = references of the valid objects -/
+def envOf (st : St) : Mmtk.IntPtr.Env :=
+  let ids := (List.range st.g.lastRef.size).filter fun i => expAlive st i && refKnown st i
+  let refs : Std.HashSet Nat := ids.foldl (fun s i => s.insert (st.g.lastRef.getD i 0)) {}
+  let sizes : List (Nat × Nat) := ids.map fun i => (st.g.lastRef.getD i 0, (st.g.heap.objs[i]?.map (·.size)).getD 0)
+  { vo := fun a => refs.contains a
+    mapped := fun a => (st.mappedTab.lookup (a / 4194304)).getD false
+    voMapped := fun _ => true
+    gran := 4194304
+    refOff := st.g.refoff
+    size := fun a => (sizes.lookup a).getD 0 }
+
+def parseSpaces (s : String) : List (Nat × String) :=
+  (s.splitOn ",").filterMap fun e => match e.splitOn ":" with
+    | name :: start :: _ => (parseHex? start).map fun a => (a >>> 41, name)
     | _ => none
 
 def boolStr? (s : String) : Option Bool := if s == "true" then some true else if s == "false" then some false else none
@@ -256,6 +289,26 @@ def ext (st : St) (pre : Driver.GCMon.St) (op res : List String) : St × String 
           (st, viol "gc:ismo-stale" s!"no valid object has the reference {a} after the full-heap collection, but is_mmtk_object answers {" ".intercalate res}")
         else (st, "ok")
     | none => (st, "ok")
+  | ["spaces"] =>
+    match res with
+    | ["spaces", body] => ({ st with spaceTab := parseSpaces body }, "ok")
+    | _ => (st, "ok")
+  | ["ismapped", a] =>
+    match num? a, res.head?.bind boolStr? with
+    | some a, some b => ({ st with mappedTab := (a / 4194304, b) :: st.mappedTab.filter (·.1 != a / 4194304) }, "ok")
+    | _, _ => (st, "ok")
+  | ["findint", p, n] =>
+    -- C08 (`findFromInternal_spec`, `findLos_spec`): the model evaluated on the monitor's valid-object set
+    match num? p, num? n with
+    | some p, some n =>
+      if !st.g.vobit || res.head? == some "unsupported" || n == 0 || hasFloaters st then (st, "ok") else
+      let want := match Mmtk.IntPtr.findFromInternal (spaceKind st p) (envOf st) p n with
+        | some a => (match validAt st a with | some i => toString i | none => "?")
+        | none => "none"
+      if res != [want] then
+        (st, viol "gc:findint-mismatch" s!"find_object_from_internal_pointer({p}, {n}) answers {" ".intercalate res}, model {want} (space {reprStr (spaceKind st p)})")
+      else (st, "ok")
+    | _, _ => (st, "ok")
   | ["enum"] =>
     match res with
     | "enum" :: rest =>
